@@ -426,6 +426,7 @@ def check(ctx, report):
         if not isinstance(last, ast.Return) or last.value is None:
             report.add('C14.R4', f.construct + '@return', '_asdict can fall off its end (returns None)')
     finite_numbers(ctx, report)
+    markdown_yields_text(ctx, report)
     report.floor('C14.R1', 20, 'iteration obligations')
     report.floor('C14.R4', 15, '_asdict overrides')
 
@@ -518,3 +519,106 @@ def finite_numbers(ctx, report, RULE='C14.R10'):
         if refused:
             report.add(RULE, where + '[ordinary]', '%s.%s refuses the ordinary number %s' % (c.name, fld.name, ', '.join(refused)))
     report.floor(RULE, 1, 'float valued fields')
+
+
+# ---- R11: the Markdown functions hand back text --------------------------------------------------------------------------------
+
+MARKDOWN_FAMILY = {'_markdown_result', '_markdown_result_complex', '_markdown_result_list', '_as_markdown', 'post_text_encoder'}
+TEXT_METHODS = {'format', 'join', 'replace', 'strip', 'lstrip', 'rstrip', 'lower', 'upper', 'title', 'capitalize', 'ljust', 'rjust', 'zfill', 'decode'}
+
+
+def markdown_yields_text(ctx, report, RULE='C14.R11'):
+    """every function of the Markdown family (``_as_markdown`` of every class, ``_markdown_result*`` of Serializable, the text
+    encoders) returns what another member of the family returned, or a pair whose second component is text: a literal, ``str()``,
+    a string method, a local that only ever holds such values.  ``as_markdown`` hands that component to the caller as it is."""
+    model = ctx.model
+    report.rule(RULE, 'every return of the Markdown functions is the result of a Markdown function or a pair (flag, text)')
+    funcs = []
+    for c in model.all_classes:
+        for name, f in getattr(c, 'methods', {}).items():
+            if name in MARKDOWN_FAMILY or (name == '__call__' and 'TextEncoder' in c.name):
+                funcs.append(f)
+
+    def family_call(node):
+        return isinstance(node, ast.Call) and ((isinstance(node.func, ast.Attribute) and node.func.attr in MARKDOWN_FAMILY) or
+                                               (isinstance(node.func, ast.Name) and node.func.id in MARKDOWN_FAMILY))
+
+    def analyse(f):
+        assigns = {}        # local -> list of (value node, 'whole' | 'second', enclosing isinstance-string names)
+        for n in ast.walk(f.node):
+            if isinstance(n, ast.Assign):
+                for t in n.targets:
+                    if isinstance(t, ast.Name):
+                        assigns.setdefault(t.id, []).append((n.value, 'whole', n))
+                    elif isinstance(t, ast.Tuple) and len(t.elts) == 2 and isinstance(t.elts[1], ast.Name):
+                        assigns.setdefault(t.elts[1].id, []).append((n.value, 'second', n))
+                        if isinstance(t.elts[0], ast.Name):
+                            assigns.setdefault(t.elts[0].id, []).append((ast.Constant(value=False), 'whole', n))
+            elif isinstance(n, ast.AugAssign) and isinstance(n.target, ast.Name):
+                assigns.setdefault(n.target.id, []).append((n.value, 'whole', n))
+        string_tested = {}      # id(statement) -> names known to be strings there (if isinstance(x, string types): <body>)
+        for n in ast.walk(f.node):
+            if isinstance(n, ast.If) and isinstance(n.test, ast.Call) and isinstance(n.test.func, ast.Name) and n.test.func.id == 'isinstance' \
+                    and len(n.test.args) == 2 and isinstance(n.test.args[0], ast.Name) and 'string_types' in ast.unparse(n.test.args[1]):
+                for st in n.body:
+                    for sub in ast.walk(st):
+                        string_tested.setdefault(id(sub), set()).add(n.test.args[0].id)
+
+        def texty(node, seen=()):
+            if isinstance(node, ast.Constant):
+                return isinstance(node.value, str)
+            if isinstance(node, ast.JoinedStr):
+                return True
+            if isinstance(node, ast.Call):
+                if isinstance(node.func, ast.Name) and node.func.id in ('str', 'repr'):
+                    return True
+                if isinstance(node.func, ast.Attribute) and node.func.attr in TEXT_METHODS:
+                    return True
+                if isinstance(node.func, ast.Attribute) and node.func.attr in ('ensure_str', 'ensure_text', 'u'):
+                    return True
+                return False
+            if isinstance(node, ast.BinOp) and isinstance(node.op, (ast.Add, ast.Mod, ast.Mult)):
+                return texty(node.left, seen) or texty(node.right, seen)
+            if isinstance(node, ast.IfExp):
+                return texty(node.body, seen) and texty(node.orelse, seen)
+            if isinstance(node, ast.Name):
+                if node.id in seen:
+                    return True
+                if node.id in string_tested.get(id(node), ()):
+                    return True
+                defs = assigns.get(node.id)
+                if not defs:
+                    return False
+                for value, how, stmt in defs:
+                    if how == 'second':
+                        if not family_call(value):
+                            return False
+                    elif isinstance(value, ast.Name) and value.id in string_tested.get(id(value), ()):
+                        continue
+                    elif not texty(value, seen + (node.id,)):
+                        return False
+                return True
+            return False
+
+        def pair_ok(node, seen=()):
+            if family_call(node):
+                return True
+            if isinstance(node, ast.Tuple) and len(node.elts) == 2:
+                return texty(node.elts[1])
+            if isinstance(node, ast.Name) and node.id not in seen:
+                defs = assigns.get(node.id)
+                return bool(defs) and all(how == 'whole' and pair_ok(value, seen + (node.id,)) for value, how, _ in defs)
+            return False
+        bad = []
+        for n in ast.walk(f.node):
+            if isinstance(n, ast.Return) and n.value is not None and not pair_ok(n.value):
+                bad.append(n)
+        return bad
+    for f in funcs:
+        report.count(RULE)
+        report.touch(f)
+        for n in analyse(f):
+            report.add(RULE, '%s@return[%s]' % (f.construct, ast.unparse(n.value)[:40]),
+                       '`return %s`: the second component is not text on every path (it is whatever the expression yields - a Base64Data, a Url, a number): '
+                       'as_markdown() hands it to the caller as it is' % ast.unparse(n.value)[:60])
+    report.floor(RULE, 20, 'Markdown functions')
